@@ -79,7 +79,6 @@ theorem C07_symmetric (n m : ℕ) (labels orders : List (List ℕ)) (utils : Lis
     DsProofs.C01.C01_importances n m labels orders utils nulls hl ho hU hN hp b]
   apply Sh.phi_symm
   intro S
-  beta_reduce
   congr 1
   exact Finset.sum_congr rfl (fun j hj => hsym j (Finset.mem_range.mp hj) S)
 
@@ -124,6 +123,5 @@ theorem C07_symmetric_adjacent (n m : ℕ) (labels orders : List (List ℕ)) (ut
 between them, and their scores differ (5/6 vs 1/3) -/
 example : importances 3 [[0,1,0]] [[0,1,2]] [[1,0]] [0] = [5/6, -1/6, 1/3] := by
   simp [importances, pointAccum, scatterAdd, rankScores, aux, List.modify, List.replicate]
-  norm_num
 
 end DsProofs.C07
